@@ -5,6 +5,7 @@ from cv import flow, pred, rules
 from cv.rules import events_of
 
 TITLE = "Diff and change reports agree with the real differences"
+TECHNIQUE = 'static analysis: finite predicate enumeration of diff_metadata, arm tables of merge and change mapping extracted from MIR, guards'
 EXPLANATION = (
     "Decided as finite shapes: (1) EntryChange::diff_metadata reports 'unchanged' only if kind, owner and mode are "
     "equal on both entries, and additionally size and mtime for files and the link target for symlinks - every "
